@@ -864,8 +864,16 @@ fn main() {
     if let Some(p) = &a.replay {
         st.full = true;
         let v: Value = serde_json::from_str(&std::fs::read_to_string(p).unwrap()).unwrap();
-        let c: Case = serde_json::from_value(v["case"]["case"].clone()).unwrap();
-        add_case(&mut st, c, "replay", judge);
+        // one case ({"case": desc}) or a batch ({"cases": [desc, ...]}: the corpus)
+        let descs: Vec<Value> = match v.get("cases").and_then(|x| x.as_array()) {
+            Some(a) => a.clone(),
+            None => vec![v["case"].clone()],
+        };
+        for d in descs {
+            let c: Case = serde_json::from_value(d["case"].clone()).unwrap();
+            let fam = d["family"].as_str().unwrap_or("replay").to_string();
+            add_case(&mut st, c, &fam, judge);
+        }
         st.finish();
         return;
     }
